@@ -11,12 +11,14 @@ import Jsonapi.Driver.Resource
 import Jsonapi.Driver.Marshal
 import Jsonapi.Driver.Unmarshal
 import Jsonapi.Driver.Url
+import Jsonapi.Driver.Alias
 open Jsonapi Jsonapi.Driver
 
 structure DState where
   schema : Schema := Schema.empty
   res : ResState := {}
   col : SColl := default
+  alias : AliasState := {}
 
 def stepLine (st : DState) (line : String) : DState × String :=
   match Sx.parseLine line with
@@ -50,6 +52,9 @@ def stepLine (st : DState) (line : String) : DState × String :=
   | [.list (.atom "url" :: args)] =>
     let (m, sp, dom) := stepUrl args
     (st, m ++ "\t" ++ sp ++ "\t" ++ (if dom then "1" else "0"))
+  | [.list (.atom "alias" :: args)] =>
+    let (a', m) := stepAlias st.alias args
+    ({ st with alias := a' }, m ++ "\t-\t1")
   | _ => (st, "bad-line\t-\t0")
 
 partial def loop (h : IO.FS.Stream) (out : IO.FS.Stream) (st : DState) : IO Unit := do
